@@ -31,8 +31,10 @@ import os
 
 OUTPUTS = ['Sharing.lean']
 
+# functions that copy their argument or only read its (immutable) elements; NOT min / max / next / getattr-like
+# functions, which hand one of their arguments back
 COPIERS = {'zip', 'len', 'set', 'list', 'tuple', 'dict', 'sorted', 'enumerate', 'frozenset', 'range', 'isinstance',
-           'str', 'iter', 'reversed', 'any', 'all', 'min', 'max', 'sum', 'map', 'filter', 'repr', 'bool'}
+           'str', 'iter', 'reversed', 'any', 'all', 'sum', 'map', 'filter', 'repr', 'bool'}
 KEEPERS = {'append', 'add', 'insert', 'appendleft'}            # container.m(obj) keeps obj itself
 MUTATING = {'append', 'insert', 'remove', 'add', 'discard', 'pop', 'clear', 'extend', 'update', 'setdefault',
             'popitem', 'sort', 'reverse', 'appendleft', 'popleft'}
@@ -150,8 +152,22 @@ def escapes(src, q, expr, seen=None):
             if not isinstance(p.ctx, ast.Load):
                 raise ValueError('%s: `%s` writes an attribute of %s' % (q, ast.unparse(par.get(p, p))[:80], expr))
             continue                                  # expr.method(..): a read
-        if isinstance(p, (ast.Compare, ast.BoolOp, ast.UnaryOp)) or (isinstance(p, (ast.If, ast.IfExp, ast.While)) and p.test is node):
+        if isinstance(p, ast.Compare) or (isinstance(p, (ast.If, ast.IfExp, ast.While)) and p.test is node) or \
+                (isinstance(p, ast.UnaryOp) and isinstance(p.op, ast.Not)):
             continue
+        if isinstance(p, ast.BoolOp):
+            # `x or []` / `x and y` evaluate to one of their operands: only a truth test may use them
+            top = p
+            while isinstance(par.get(top), (ast.BoolOp, ast.UnaryOp)) and \
+                    (isinstance(par.get(top), ast.BoolOp) or isinstance(par.get(top).op, ast.Not)):
+                top = par.get(top)
+            gp = par.get(top)
+            if (isinstance(gp, (ast.If, ast.IfExp, ast.While)) and gp.test is top) or isinstance(gp, ast.Assert) or \
+                    (isinstance(top, ast.UnaryOp) and isinstance(top.op, ast.Not)):
+                continue
+            raise ValueError('%s: %s is an operand of `%s`, whose value may be the object itself' % (q, expr, ast.unparse(top)[:80]))
+        if isinstance(p, ast.IfExp) and (p.body is node or p.orelse is node):
+            raise ValueError('%s: %s is a branch of `%s`, whose value may be the object itself' % (q, expr, ast.unparse(p)[:80]))
         if isinstance(p, ast.Call) and node in p.args:
             f = p.func
             if isinstance(f, ast.Name) and f.id in COPIERS:
